@@ -21,9 +21,11 @@ from harness import impl
 from harness import inject
 from harness import ops
 from harness import oracles
+from harness import parse
 from harness import surface
 
-DEPS = checks_seq.MODEL + ['Spec/Pipeline.v', 'Spec/ExcSpec.v', 'Proofs/C04.v', 'Proofs/C16.v', 'Proofs/C15.v', 'Proofs/C15x.v']
+DEPS = checks_seq.MODEL + ['Spec/Pipeline.v', 'Spec/ExcSpec.v', 'Proofs/C04.v', 'Proofs/C16.v', 'Proofs/C15.v', 'Proofs/C15x.v',
+                            'Model/Parse.v', 'Proofs/C15p.v']
 U = ops.uuid_of
 SVC = {'x-roles': 'admin,service'}
 REJECT = (400, 404, 405, 406, 415)
@@ -331,8 +333,22 @@ def run(pid, tier, out):
                           'status': resp.status_int if resp is not None else -1})
     app.close()
 
+    # (3) query-string value parsers of util.py / lib.py: the real functions against Model/Parse.v on generated strings
+    pstats, pdis, pn_cases = {}, [], 0
+    if common.vo_fresh('Model/Parse.v'):
+        try:
+            pn_cases, pdis, pstats = parse.run(seed + 1515, 500 if tier == 'quick' else 8000, tag='C15_%s' % tier)
+        except Exception as exc:      # noqa
+            corr_error = (corr_error or '') + ' parse stream: %s' % str(exc)[-600:]
+    else:
+        corr_error = (corr_error or '') + ' Model/Parse.v did not build'
+    for e in pstats.get('escapes', [])[:3]:
+        probs.append({'state': 'none', 'index': -1, 'request': {'parser_case': e['case']}, 'kind': 'parser-escape',
+                      'text': 'query-string value parser raised %s instead of HTTPBadRequest on %r' % (e['exception'], e['case']),
+                      'status': 500})
+
     proof_broken = (not ps['ok']) or bool(hyg) or not ok_tr
-    tie_broken = bool(disagreements) or corr_error is not None
+    tie_broken = bool(disagreements) or bool(pdis) or corr_error is not None
     for f, name, m in known_hits[:1]:
         out.known_finding('GET /allocation_candidates -> 500 KeyError with a nested sharing provider (%d requests of this run)'
                           % len(known_hits))
@@ -348,6 +364,10 @@ def run(pid, tier, out):
         seen.add(key)
         if len(seen) > 5:
             break
+        if p['kind'] == 'parser-escape':
+            out.violation({'kind': 'parse', 'case': p['request']['parser_case'], 'problem': p['kind'],
+                           'broken': ps.get('broken') or ('correspondence' if tie_broken else None)}, p['text'])
+            continue
         out.violation({'kind': 'fuzz', 'state': p['state'], 'request': p['request'], 'problem': p['kind'], 'status': p['status'],
                        'setup': 'harness.checks_fuzz.exotic_state / surface.setup_state / history (seed %d)' % seed,
                        'broken': ps.get('broken') or ('correspondence' if tie_broken else None)}, p['text'])
@@ -363,18 +383,21 @@ def run(pid, tier, out):
                 ci, step = disagreements[0]
                 d0 = {'ops': [checks_seq.op_json(c[0]) for c in cases[ci][:step + 1]],
                       'impl_observation': cases[ci][step][1], 'impl_dump': cases[ci][step][2]}
-            out.violation({'kind': 'correspondence-broken', 'stream': 'histories/default', 'first_disagreement': d0,
-                           'error': corr_error},
-                          'model and implementation disagree (%d histories) and neither oracle found a failing input'
-                          % len(disagreements), no_input=True)
+            out.violation({'kind': 'correspondence-broken', 'stream': 'histories/default' if disagreements or not pdis else 'parse',
+                           'first_disagreement': d0, 'parser_disagreements': pdis[:5], 'error': corr_error},
+                          'model and implementation disagree (%d histories, %d parser cases) and neither oracle found a failing input'
+                          % (len(disagreements), len(pdis)), no_input=True)
     nthm = len(ps['theorems'])
     obligations = max(1, nthm + ps['lemmas'])
     discharged = obligations if ps['ok'] else sum(1 for x in ps['theorems'] if x[1])
     cov = {'obligations': obligations, 'discharged': discharged,
            'checker_cmd': 'cd /verif/coq && make -k && coqc -Q . PV Props/C15.v',
            'trusted_base': common.TRUSTED_BASE + [
-               'theorems cover the modelled write handlers and the front pipeline; body/query parsing, JSON schema validation, '
-               'error formatting and the read routes are exercised by the mutation stream only (not proved)'],
+               'theorems cover the modelled write handlers, the front pipeline and the query-string VALUE parsers of util.py/lib.py '
+               '(Model/Parse.v, tied by the parse stream); body parsing, JSON schema validation, error formatting and the read '
+               'routes behind the parsers are exercised by the mutation stream only (not proved)',
+               'Model/Parse.v: CPython str.strip/split/isspace/int() and oslo is_uuid_like are modelled (tables compared with the '
+               'running interpreter over all code points on every run)'],
            'theorems': [{'name': n_, 'closed_under_global_context': c, 'assumptions': a} for n_, c, a in ps['theorems']],
            'proof_error': ps['error'], 'hygiene_hits': hyg,
            'evaluations': stats['evaluations'] + hstats['evaluations'],
@@ -388,7 +411,9 @@ def run(pid, tier, out):
            'model_impl_disagreements': len(disagreements), 'correspondence_error': corr_error,
            'status_histogram': {str(k): v for k, v in sorted(stats['status'].items())},
            'route_histogram': dict(stats['route']), 'mutation_histogram': dict(stats['mutation']),
-           'known_finding_hits': len(known_hits), 'problems': len(probs)}
+           'known_finding_hits': len(known_hits), 'problems': len(probs),
+           'parser_cases': pn_cases, 'parser_disagreements': len(pdis), 'parser_cases_by_kind': pstats.get('by_kind'),
+           'parser_builtin_table_discrepancies': pstats.get('table_discrepancies')}
     common.write_evidence('C15', tier, 'proof', cov, t.s(), len(out.violations),
                           assumptions=['SQLite as the database', 'requests are delivered through webob (inputs webob cannot build are skipped)',
                                        'stored state = the nine core tables (project/user/consumer-type name rows excluded, as in C04)'])
@@ -411,5 +436,11 @@ def replay(pid, path, out):
             else:
                 out.violation({'kind': 'fuzz', 'state': d['state'], 'request': d['request'], 'problem': p[0]}, p[1])
         app.close()
+    elif d.get('kind') == 'parse':
+        case = parse.tuplify(d['case'])
+        o = parse.call_real(case, parse.load_util(None))
+        if o[0] == 'escape' or (o[0] == 'raise' and o[1] != 'ValueError'):
+            out.violation({'kind': 'parse', 'case': d['case'], 'problem': 'parser-escape'},
+                          'query-string value parser raised %s instead of HTTPBadRequest on %r' % (o[1], case))
     else:
         run(pid, 'quick', out)
